@@ -492,11 +492,14 @@ fn run_case(imp: &mut Impl, env: &Env, c: &Case) -> CaseResult {
             match imp.eval(&expr) {
                 R::Dt(ns, _) => {
                     let d = (ns - *t).abs();
-                    if d >= unit_ns + slop && d < 2 * unit_ns + slop && *variant != 0 {
-                        // floor_in() applied to a value that the s <-> µs/ms detour left a hair below a whole number
+                    if d >= unit_ns + slop && d < 2 * unit_ns + slop {
+                        // floor_in() / `as i64` applied to a value that the s <-> µs/ms detour left a hair below a whole number
                         r.fails.push((format!("C23:unix:{}:floor-off-by-one", variant), format!("{} is {} ns away from the instant {}: one whole unit ({} ns) more than the truncation allows", expr, d, t, unit_ns)));
                     } else if d >= unit_ns + slop {
                         r.fails.push((format!("C23:unix:{}", variant), format!("{} is {} ns away from the instant {} (allowed: below {} ns)", expr, d, t, unit_ns + slop)));
+                    } else if slop == 0 && (*variant == 0 || *variant == 3) && (ns - (*t / 1000) * 1000).abs() == 1000 {
+                        // the exact integer count was floored one microsecond down (same defect, seen below 1 µs distance)
+                        r.fails.push((format!("C23:unix:{}:floor-off-by-one", variant), format!("{} = {} ns, one whole microsecond off {} truncated to microseconds", expr, ns, t)));
                     } else if slop == 0 && (*variant == 0 || *variant == 3) && ns != (*t / 1000) * 1000 {
                         r.fails.push((format!("C23:unix:{}", variant), format!("{} = {} is not {} truncated to microseconds", expr, ns, t)));
                     } else {
